@@ -14,6 +14,7 @@ import PoetryVerif.Proofs.VRangeInv
 import PoetryVerif.Proofs.VRangeSepV
 import PoetryVerif.Proofs.VRangeInterU
 import PoetryVerif.Proofs.VRangeDiffU
+import PoetryVerif.Proofs.VRangeFinalSet
 
 set_option linter.unusedSimpArgs false
 set_option linter.unusedVariables false
@@ -631,12 +632,104 @@ theorem C05_regular_comm {B : List Version} (hB : RegB B) (a b : VC) (ha : a.WF)
   cases f1; cases f2
   exact ⟨by rw [e3, f3, Bool.and_comm], by rw [e4, f4, Bool.or_comm]⟩
 
+/-! ## intersection on EVERY probe: where the boundary runs
+
+`intersect` of two non-union operands keeps the lower end of one and the upper end of one, chosen by the bound
+comparisons.  It is exact at a probe exactly when those comparisons are sound at that probe
+(`VRange.intersect_cmp_at`).  An inclusive lower end and an exclusive upper end are plain comparisons on every
+version (`VRange.allowsLo_incl`, `VRange.allowsHi_excl`); only an exclusive lower end (PEP 440 gap above it: its
+post-releases and local builds) and an inclusive upper end (its local builds) read differently on their siblings. -/
+
+/-- the probe is fine for a member: regular for a `Version` member, and for a range, regular for an exclusive
+lower end and for an inclusive upper end (nothing is asked for an inclusive lower / exclusive upper end) -/
+theorem intersect_exact_at_fine_probe (m n : RC) (hm : m.WF) (hn : n.WF) (lm : m.RngNoLocal) (ln : n.RngNoLocal)
+    (p : Version) (hp : p.wf = true) (om : m.OKat p) (on : n.OKat p) :
+    ∃ c, RC.intersect m n = .ok c ∧ c.allows p = .ok (m.allows p && n.allows p) := by
+  obtain ⟨c, h1, h2, _, h4⟩ := RC.intersect_exact_at m n hm hn p hp om on lm ln
+  exact ⟨c, h1, by rw [VC.allows_of_notUnion c p h2, h4]⟩
+
+/-- **half-open ranges** (`VRange.HalfOpen`: an inclusive lower end if any, an exclusive upper end if any — the shape
+of `^V`, `~V`, `~=V`, `==V.*`, `>=V`, `<V`, `>=V,<W`) **are intersected exactly on ALL versions** — no regularity at all: pre-releases,
+post-releases, dev-releases and local builds of the bounds included; the result is half-open again (or empty) -/
+theorem halfopen_intersect_exact (a b : VRange) (ha : a.WF) (hb : b.WF) (oa : a.HalfOpen) (ob : b.HalfOpen) :
+    ∃ c, RC.rngIntersectRng a b = .ok c ∧ (∀ p, p.wf = true → c.allows p = .ok (a.allows p && b.allows p)) ∧
+      (c = .empty ∨ ∃ r, c = .single (.rng r) ∧ r.WF ∧ r.HalfOpen) := by
+  have fine : ∀ (r : VRange), r.HalfOpen → ∀ p, r.OKat p := fun r hr p =>
+    ⟨fun m hm => Or.inl (hr.1 m hm), fun M hM => Or.inl (hr.2 M hM)⟩
+  -- totality and shape, once
+  have tot : ∃ c, RC.rngIntersectRng a b = .ok c := by
+    rcases VRange.intersect_den a b ha hb with ⟨h, _⟩ | ⟨x, h, _⟩ | ⟨r, h, _⟩ <;> exact ⟨_, h⟩
+  obtain ⟨c, hc⟩ := tot
+  refine ⟨c, hc, fun p hp => ?_, ?_⟩
+  · obtain ⟨c', h1, h2, _, _, h5⟩ := VRange.intersect_exact_at a b ha hb p hp (fine a oa p) (fine b ob p)
+    rw [hc] at h1; injection h1 with h1; subst h1
+    rw [VC.allows_of_notUnion c p h2, h5]
+  · have pick : ∀ L : VRange, L = a ∨ L = b → L.HalfOpen := by
+      intro L hL; rcases hL with rfl | rfl <;> assumption
+    rcases VRange.intersect_den a b ha hb with ⟨h, _⟩ | ⟨x, h, _⟩ | ⟨r, h, hr, _⟩
+    · rw [hc] at h; injection h with h; exact Or.inl h
+    · -- a single version needs two inclusive ends
+      exfalso
+      rw [hc] at h; injection h with h; subst h
+      rcases VRange.rngIntersectRng_shape a b _ hc with he | ⟨L, H, hL, hH, hf⟩
+      · cases he
+      · rcases VRange.interFinish_shape _ _ _ _ _ hf with ⟨_, _, hcc⟩ | ⟨x', hmn, hov, _, hj, hcc⟩ | ⟨_, hcc⟩
+        · cases hcc
+        · cases hM : H.max with
+          | none => rw [hmn, hM] at hov; simp [optVerEq] at hov
+          | some M => have := (pick H hH).2 M hM; rw [hj] at this; cases this
+        · cases hcc
+    · rw [hc] at h; injection h with h; subst h
+      refine Or.inr ⟨r, rfl, hr, ?_⟩
+      rcases VRange.rngIntersectRng_shape a b _ hc with he | ⟨L, H, hL, hH, hf⟩
+      · cases he
+      · rcases VRange.interFinish_shape _ _ _ _ _ hf with ⟨_, _, hcc⟩ | ⟨x', _, _, _, _, hcc⟩ | ⟨_, hcc⟩
+        · injection hcc with hcc; injection hcc with hcc; subst hcc
+          exact ⟨by intro m hm; simp [VRange.any] at hm, by intro M hM; simp [VRange.any] at hM⟩
+        · cases hcc
+        · injection hcc with hcc; injection hcc with hcc; subst hcc
+          exact ⟨fun m hm => (pick L hL).1 m hm, fun M hM => (pick H hH).2 M hM⟩
+
+example : VRange.HalfOpen ⟨some (Version.mk' 0 [1, 0] none none none none), some (Version.mk' 0 [2] none none none none), true, false⟩ :=
+  ⟨fun _ _ => rfl, fun _ _ => rfl⟩
+
+/-- **members over final versions are intersected exactly on ALL versions** (`RC.FClass`: a `Version` that equals a
+final version; a range whose ends are final versions or first dev-releases of final versions, an exclusive lower /
+inclusive upper end being final) — the members `parse_constraint` builds for clauses with final literals -/
+theorem final_intersect_exact (m n : RC) (hm : m.FClass) (hn : n.FClass) :
+    ∃ c, RC.intersect m n = .ok c ∧ (∀ x ∈ c.flatten, x.FClass) ∧
+      ∀ p, p.wf = true → c.allows p = .ok (m.allows p && n.allows p) := by
+  have hex : ∃ c, RC.intersect m n = .ok c := by
+    obtain ⟨c, h, _⟩ := RC.intersect_final m n hm hn (Version.mk' 0 [0] none none none none) (by decide)
+    exact ⟨c, h⟩
+  obtain ⟨c, hc⟩ := hex
+  obtain ⟨c0, h0, _, hcl, _⟩ := RC.intersect_final m n hm hn (Version.mk' 0 [0] none none none none) (by decide)
+  rw [hc] at h0; injection h0 with h0; subst h0
+  refine ⟨c, hc, hcl, fun p hp => ?_⟩
+  obtain ⟨c', h1, h2, _, h4⟩ := RC.intersect_final m n hm hn p hp
+  rw [hc] at h1; injection h1 with h1; subst h1
+  rw [VC.allows_of_notUnion c p h2, h4]
+
+/-- the complement: an exclusive lower end next to a greater bound of its own release.  `>1.0` ∩ `>=1.0.post1` is
+`>=1.0.post1`, which admits `1.0.post1`; `>1.0` rejects it (PEP 440: `>V` excludes the post-releases of `V`).  The
+probe is a sibling of the exclusive end `1.0` — not fine for it. -/
+theorem counterexample_intersect_sibling_gap :
+    let V := Version.mk' 0 [1, 0] none none none none
+    let W := Version.mk' 0 [1, 0] none (some ⟨.post, 1⟩) none none
+    RC.rngIntersectRng ⟨some V, none, false, false⟩ ⟨some W, none, true, false⟩ =
+      .ok (.single (.rng ⟨some W, none, true, false⟩)) ∧
+    (⟨some W, none, true, false⟩ : VRange).allows W = true ∧ (⟨some V, none, false, false⟩ : VRange).allows W = false := by
+  intro V W
+  exact ⟨by decide, by decide, by decide⟩
+
 /-- C05 for arbitrary constraints (unions included), with the carve-out of the known finding.  Proved: this
 statement under the extra hypothesis `RegB` (bounds mutually regular, none local): `C05_regular_partial`; without
 it: every non-union case of `intersect` (defined + exact), the non-union cases of `union` and `difference` under
 the named hypotheses, `VersionUnion.of` membership preservation, the union ∩ walk, the empty/universal laws and
-commutativity.  Not proved without `RegB`: the union-level results for bounds that are local builds or irregular
-for each other (e.g. `<2.0 || >=2.0a1`). -/
+commutativity; on EVERY probe: `intersect` of non-union operands at probes fine for both
+(`intersect_exact_at_fine_probe`), of half-open ranges (`halfopen_intersect_exact`) and of members over final versions
+(`final_intersect_exact`), with `counterexample_intersect_sibling_gap` for the complement.  Not proved without `RegB`:
+the union-level results for bounds that are local builds or irregular for each other (e.g. `<2.0 || >=2.0a1`). -/
 def C05_full_statement : Prop :=
   ∀ a b : VC, a.WF → b.WF →
     (∀ r x, RC.rng r ∈ a.flatten ++ b.flatten → RC.ver x ∈ a.flatten ++ b.flatten → ¬ RC.LocalMinCase r x) →
